@@ -384,6 +384,14 @@ pub fn op_hand(mode: &str, np: usize, script: &str) -> String {
 
 pub fn run(args: &[&str]) -> String {
     match args[0] {
+        "left" => {
+            let len: usize = args[1].parse().unwrap();
+            match catch(|| PeerHandler::verif_left(len)) {
+                Ok(v) if v.is_empty() => "-".into(),
+                Ok(v) => v.iter().map(|(b, l)| format!("{}:{}", b, l)).collect::<Vec<_>>().join(","),
+                Err(()) => "P".into(),
+            }
+        }
         "hand" => op_hand(args[1], args[2].parse().unwrap(), args[3]),
         _ => panic!("unknown handler op"),
     }
@@ -635,5 +643,24 @@ pub fn gen_script(r: &mut Rng, flavor: &str) -> String {
 }
 
 pub fn gen(r: &mut Rng, n: usize, flavor: &str) -> Vec<String> {
-    (0..n).map(|_| gen_script(r, flavor)).collect()
+    let mut out: Vec<String> = vec![];
+    if flavor == "C10" {
+        // the pure tiling function on boundary and random lengths
+        for len in [0usize, 1, 2, 16383, 16384, 16385, 32767, 32768, 32769, 49152, 81927, 262144, 262145] {
+            out.push(format!("left {}", len));
+        }
+        for _ in 0..(n / 4) {
+            let len = match r.below(3) {
+                0 => r.below(70000) as usize,
+                1 => 16384 * (r.below(20) as usize) + (r.below(3) as usize),
+                _ => r.below(1 << 21) as usize,
+            };
+            out.push(format!("left {}", len));
+        }
+    }
+    while out.len() < n {
+        out.push(gen_script(r, flavor));
+    }
+    out.truncate(n.max(14));
+    out
 }
